@@ -70,8 +70,10 @@ Step ==
   /\ LET r == RealTrace(Obs[c])  p == Predicted(Obs[c]) IN
      /\ pos < Len(r) /\ pos < Len(p) /\ SameEvent(r[pos + 1], p[pos + 1])
   /\ pos' = pos + 1 /\ UNCHANGED <<c, done>>
+(* the helper imports the real visitor requested (`import` hook events) are the ones the model's `imports` holds *)
+ImportsAgree(ob) == ("imports" \in DOMAIN ob.abs /\ "imports" \in DOMAIN ob.drv) => SetOf(ob.abs.imports) = SetOf(ob.drv.imports)
 Drift(ob) == IF ob.drv.term.k # "return" THEN 0
-             ELSE IF pos = Len(RealTrace(ob)) /\ pos = Len(Predicted(ob)) THEN 0 ELSE pos + 1
+             ELSE IF pos = Len(RealTrace(ob)) /\ pos = Len(Predicted(ob)) THEN (IF ImportsAgree(ob) THEN 0 ELSE 9999) ELSE pos + 1
 Finish ==
   /\ ~done /\ ~ENABLED Step /\ done' = TRUE /\ UNCHANGED <<c, pos>>
   /\ LET ob == Obs[c] IN
